@@ -507,7 +507,7 @@ impl FileTables {
 }
 impl Space for FileTables {
     fn name(&self) -> String {
-        "ElfBytes and ElfStream: section_data_as_rels / section_data_as_relas / dynamic() via .dynamic / dynamic() and find_common_data() via PT_DYNAMIC alone on generated files: 0..=5 whole entries + a ragged tail of {0, 1, entsize-1} bytes x declared sh_entsize in {own size, 0, 1, 7, 8, 12, 16, 24, 48} (relocations only) x 4 encodings; the entries yielded are exactly the whole entries of the bytes, in order; symbol_table / dynamic_symbol_table / find_common_data (both parsers) on 1..=5 symbols under sh_flags in {0, ALLOC, COMPRESSED, ALLOC|COMPRESSED, MERGE|STRINGS}".into()
+        "ElfBytes and ElfStream: section_data_as_rels / section_data_as_relas / dynamic() via .dynamic / dynamic() and find_common_data() via PT_DYNAMIC alone on generated files: 0..=5 whole entries + a ragged tail of {0, 1, entsize-1} bytes x declared sh_entsize in {own size, 0, 1, 7, 8, 12, 16, 24, 48} (relocations only) x 4 encodings; the entries yielded are exactly the whole entries of the bytes, in order; symbol_table / dynamic_symbol_table / find_common_data (both parsers) on 1..=5 symbols under sh_flags in {0, ALLOC, TLS, EXECINSTR, MERGE|STRINGS}".into()
     }
     fn size(&self) -> u64 {
         product(&Self::dims())
@@ -674,7 +674,9 @@ impl FileTables {
             out.count("symbol_tables_with_whole_entries_only");
             return;
         }
-        let flags = [0u64, 2, 0x800, 0x802, 0x30][d[4] as usize];
+        // SHF_COMPRESSED is left out on purpose: what a compressed symbol table means is not specified
+        // (C07 scopes such sections out for the same reason)
+        let flags = [0u64, 2, 0x400, 0x4, 0x30][d[4] as usize];
         let body: Vec<u8> = (0..n * ent).map(|i| (i as u8).wrapping_mul(29) ^ 0xa5 ^ ((i >> 2) as u8)).collect();
         let mut spec = Spec::new(enc, TableOrder::TablesFirst);
         spec.secs = vec![
